@@ -33,7 +33,13 @@ struct Ep {
     counterparty: Option<Address>,
     owner: Option<Address>,
     call: Call,
-    other_args: Option<Call>,
+    /// the same call with one argument changed each (authorisations recorded for these must not
+    /// open the real call)
+    other_args: Vec<Call>,
+}
+
+fn one(c: Call) -> Vec<Call> {
+    vec![c]
 }
 
 const GROUPS: [&str; 6] = ["token", "gas-service", "gateway", "its", "operators", "example"];
@@ -53,13 +59,16 @@ fn matrix(rep: &mut Report, u: &mut U, ep: &Ep, stranger: &Address, state: &str)
     cands.push(("stranger", Auth::AllBy(stranger.clone()), false));
     cands.push(("nobody", Auth::Nobody, false));
     cands.push(("everyone-but-named", Auth::Without(ep.named.clone()), false));
-    if ep.other_args.is_some() {
+    for _ in &ep.other_args {
         cands.push(("named-other-arguments", Auth::Nobody, false));
     }
+    let mut variant = 0usize;
     for (class, auth, must_ok) in cands {
         let ck = u.checkpoint();
         let auth = if class == "named-other-arguments" {
-            let (_, forest) = u.record(&**ep.other_args.as_ref().unwrap());
+            let call = ep.other_args[variant].clone();
+            variant += 1;
+            let (_, forest) = u.record(&*call);
             let h = sc_addr(&ep.named);
             Auth::Forest(forest.into_iter().filter(|(a, _)| *a == h).collect())
         } else {
@@ -168,23 +177,37 @@ pub fn run(ctx: &Ctx, rep: &mut Report) {
                 let eps = vec![
                     Ep { valid: true, name: "token.approve", named: a.clone(), counterparty: Some(c.clone()), owner: Some(owner.clone()),
                          call: { let (x, y) = (a1.clone(), c1.clone()); mk(Rc::new(move |cl, _| flat(cl.try_approve(&x, &y, &50, &exp)))) },
-                         other_args: Some({ let (x, y) = (a1.clone(), c1.clone()); mk(Rc::new(move |cl, _| flat(cl.try_approve(&x, &y, &51, &exp)))) }) },
+                         other_args: one({ let (x, y) = (a1.clone(), c1.clone()); mk(Rc::new(move |cl, _| flat(cl.try_approve(&x, &y, &51, &exp)))) }) },
                     Ep { valid: true, name: "token.transfer", named: a.clone(), counterparty: Some(c.clone()), owner: Some(owner.clone()),
                          call: { let (x, y) = (a1.clone(), c1.clone()); mk(Rc::new(move |cl, _| flat(cl.try_transfer(&x, &y, &10)))) },
-                         other_args: Some({ let (x, y) = (a1.clone(), c1.clone()); mk(Rc::new(move |cl, _| flat(cl.try_transfer(&x, &y, &11)))) }) },
+                         other_args: one({ let (x, y) = (a1.clone(), c1.clone()); mk(Rc::new(move |cl, _| flat(cl.try_transfer(&x, &y, &11)))) }) },
                     Ep { valid: true, name: "token.transfer_from", named: b.clone(), counterparty: Some(a.clone()), owner: Some(owner.clone()),
                          call: { let (s, f, to) = (b1.clone(), a1.clone(), c1.clone()); mk(Rc::new(move |cl, _| flat(cl.try_transfer_from(&s, &f, &to, &10)))) },
-                         other_args: Some({ let (s, f, to) = (b1.clone(), a1.clone(), c1.clone()); mk(Rc::new(move |cl, _| flat(cl.try_transfer_from(&s, &f, &to, &11)))) }) },
+                         other_args: one({ let (s, f, to) = (b1.clone(), a1.clone(), c1.clone()); mk(Rc::new(move |cl, _| flat(cl.try_transfer_from(&s, &f, &to, &11)))) }) },
                     Ep { valid: true, name: "token.burn", named: a.clone(), counterparty: None, owner: Some(owner.clone()),
                          call: { let x = a1.clone(); mk(Rc::new(move |cl, _| flat(cl.try_burn(&x, &10)))) },
-                         other_args: Some({ let x = a1.clone(); mk(Rc::new(move |cl, _| flat(cl.try_burn(&x, &11)))) }) },
+                         other_args: one({ let x = a1.clone(); mk(Rc::new(move |cl, _| flat(cl.try_burn(&x, &11)))) }) },
                     Ep { valid: true, name: "token.burn_from", named: b.clone(), counterparty: Some(a.clone()), owner: Some(owner.clone()),
                          call: { let (s, f) = (b1.clone(), a1.clone()); mk(Rc::new(move |cl, _| flat(cl.try_burn_from(&s, &f, &10)))) },
-                         other_args: Some({ let (s, f) = (b1.clone(), a1.clone()); mk(Rc::new(move |cl, _| flat(cl.try_burn_from(&s, &f, &11)))) }) },
+                         other_args: one({ let (s, f) = (b1.clone(), a1.clone()); mk(Rc::new(move |cl, _| flat(cl.try_burn_from(&s, &f, &11)))) }) },
                     Ep { valid: true, name: "token.mint_from", named: minter.clone(), counterparty: Some(c.clone()), owner: Some(owner.clone()),
                          call: { let (m, to) = (m1.clone(), c1.clone()); mk(Rc::new(move |cl, _| flat(cl.try_mint_from(&m, &to, &10)))) },
-                         other_args: Some({ let (m, to) = (m1.clone(), c1.clone()); mk(Rc::new(move |cl, _| flat(cl.try_mint_from(&m, &to, &11)))) }) },
+                         other_args: one({ let (m, to) = (m1.clone(), c1.clone()); mk(Rc::new(move |cl, _| flat(cl.try_mint_from(&m, &to, &11)))) }) },
                 ];
+                // further "other arguments" variants: one argument changed at a time
+                let mut eps = eps;
+                {
+                    let (x, y, z) = (a1.clone(), c1.clone(), b1.clone());
+                    // approve: other spender, other expiry
+                    eps[0].other_args.push({ let (x, z) = (x.clone(), z.clone()); mk(Rc::new(move |cl, _| flat(cl.try_approve(&x, &z, &50, &exp)))) });
+                    eps[0].other_args.push({ let (x, y) = (x.clone(), y.clone()); mk(Rc::new(move |cl, _| flat(cl.try_approve(&x, &y, &50, &(exp + 1))))) });
+                    // transfer: other recipient
+                    eps[1].other_args.push({ let (x, z) = (x.clone(), z.clone()); mk(Rc::new(move |cl, _| flat(cl.try_transfer(&x, &z, &10)))) });
+                    // transfer_from: other recipient
+                    eps[2].other_args.push({ let (s, f) = (z.clone(), x.clone()); mk(Rc::new(move |cl, _| flat(cl.try_transfer_from(&s, &f, &s, &10)))) });
+                    // mint_from: other recipient
+                    eps[5].other_args.push({ let (m, to) = (m1.clone(), x.clone()); mk(Rc::new(move |cl, _| flat(cl.try_mint_from(&m, &to, &10)))) });
+                }
                 for ep in &eps {
                     matrix(rep, &mut u, ep, &stranger, "with-allowance");
                 }
@@ -193,13 +216,13 @@ pub fn run(ctx: &Ctx, rep: &mut Report) {
                 let (v1, x1) = (a.clone(), c.clone());
                 let no_allow = vec![
                     Ep { valid: false, name: "token.transfer_from", named: c.clone(), counterparty: Some(a.clone()), owner: Some(owner.clone()),
-                         call: { let (s, f) = (x1.clone(), v1.clone()); mk(Rc::new(move |cl, _| flat(cl.try_transfer_from(&s, &f, &s, &10)))) }, other_args: None },
+                         call: { let (s, f) = (x1.clone(), v1.clone()); mk(Rc::new(move |cl, _| flat(cl.try_transfer_from(&s, &f, &s, &10)))) }, other_args: vec![] },
                     Ep { valid: false, name: "token.transfer_from", named: c.clone(), counterparty: Some(a.clone()), owner: Some(owner.clone()),
-                         call: { let (s, f) = (x1.clone(), v1.clone()); mk(Rc::new(move |cl, _| flat(cl.try_transfer_from(&s, &f, &f, &10)))) }, other_args: None },
+                         call: { let (s, f) = (x1.clone(), v1.clone()); mk(Rc::new(move |cl, _| flat(cl.try_transfer_from(&s, &f, &f, &10)))) }, other_args: vec![] },
                     Ep { valid: false, name: "token.transfer_from", named: c.clone(), counterparty: Some(a.clone()), owner: Some(owner.clone()),
-                         call: { let (s, f, t3) = (x1.clone(), v1.clone(), b1.clone()); mk(Rc::new(move |cl, _| flat(cl.try_transfer_from(&s, &f, &t3, &10)))) }, other_args: None },
+                         call: { let (s, f, t3) = (x1.clone(), v1.clone(), b1.clone()); mk(Rc::new(move |cl, _| flat(cl.try_transfer_from(&s, &f, &t3, &10)))) }, other_args: vec![] },
                     Ep { valid: false, name: "token.burn_from", named: c.clone(), counterparty: Some(a.clone()), owner: Some(owner.clone()),
-                         call: { let (s, f) = (x1.clone(), v1.clone()); mk(Rc::new(move |cl, _| flat(cl.try_burn_from(&s, &f, &10)))) }, other_args: None },
+                         call: { let (s, f) = (x1.clone(), v1.clone()); mk(Rc::new(move |cl, _| flat(cl.try_burn_from(&s, &f, &10)))) }, other_args: vec![] },
                 ];
                 for (i, ep) in no_allow.iter().enumerate() {
                     matrix(rep, &mut u, ep, &stranger, ["no-allowance,recipient=spender", "no-allowance,recipient=owner-of-funds", "no-allowance,recipient=third-party", "no-allowance"][i]);
@@ -209,22 +232,22 @@ pub fn run(ctx: &Ctx, rep: &mut Report) {
                 let (m2, o2, v2) = (minter.clone(), owner.clone(), a.clone());
                 let role_eps = vec![
                     Ep { valid: false, name: "token.burn_from", named: minter.clone(), counterparty: Some(a.clone()), owner: Some(owner.clone()),
-                         call: { let (s, f) = (m2.clone(), v2.clone()); mk(Rc::new(move |cl, _| flat(cl.try_burn_from(&s, &f, &10)))) }, other_args: None },
+                         call: { let (s, f) = (m2.clone(), v2.clone()); mk(Rc::new(move |cl, _| flat(cl.try_burn_from(&s, &f, &10)))) }, other_args: vec![] },
                     Ep { valid: false, name: "token.transfer_from", named: minter.clone(), counterparty: Some(a.clone()), owner: Some(owner.clone()),
-                         call: { let (s, f) = (m2.clone(), v2.clone()); mk(Rc::new(move |cl, _| flat(cl.try_transfer_from(&s, &f, &s, &10)))) }, other_args: None },
+                         call: { let (s, f) = (m2.clone(), v2.clone()); mk(Rc::new(move |cl, _| flat(cl.try_transfer_from(&s, &f, &s, &10)))) }, other_args: vec![] },
                     Ep { valid: false, name: "token.burn_from", named: owner.clone(), counterparty: Some(a.clone()), owner: None,
-                         call: { let (s, f) = (o2.clone(), v2.clone()); mk(Rc::new(move |cl, _| flat(cl.try_burn_from(&s, &f, &10)))) }, other_args: None },
+                         call: { let (s, f) = (o2.clone(), v2.clone()); mk(Rc::new(move |cl, _| flat(cl.try_burn_from(&s, &f, &10)))) }, other_args: vec![] },
                     Ep { valid: false, name: "token.mint_from", named: minter.clone(), counterparty: Some(a.clone()), owner: Some(owner.clone()),
-                         call: { let (s, f) = (m2.clone(), v2.clone()); mk(Rc::new(move |cl, _| flat(cl.try_mint_from(&s, &f, &-400)))) }, other_args: None },
+                         call: { let (s, f) = (m2.clone(), v2.clone()); mk(Rc::new(move |cl, _| flat(cl.try_mint_from(&s, &f, &-400)))) }, other_args: vec![] },
                     Ep { valid: false, name: "token.mint_from", named: owner.clone(), counterparty: Some(a.clone()), owner: None,
-                         call: { let f = v2.clone(); mk(Rc::new(move |cl, _| flat(cl.try_mint(&f, &-250)))) }, other_args: None },
+                         call: { let f = v2.clone(); mk(Rc::new(move |cl, _| flat(cl.try_mint(&f, &-250)))) }, other_args: vec![] },
                 ];
                 for (i, ep) in role_eps.iter().enumerate() {
                     matrix(rep, &mut u, ep, &stranger, ["no-allowance,spender-is-minter", "no-allowance,spender-is-minter,recipient=spender", "no-allowance,spender-is-owner", "negative-mint-by-minter", "negative-mint-by-owner"][i]);
                 }
                 // the allowance granted to b (300) must not be exceeded either, even when b is the recipient
                 let over = Ep { valid: false, name: "token.transfer_from", named: b.clone(), counterparty: Some(a.clone()), owner: Some(owner.clone()),
-                                call: { let (s, f) = (b1.clone(), a1.clone()); mk(Rc::new(move |cl, _| flat(cl.try_transfer_from(&s, &f, &s, &301)))) }, other_args: None };
+                                call: { let (s, f) = (b1.clone(), a1.clone()); mk(Rc::new(move |cl, _| flat(cl.try_transfer_from(&s, &f, &s, &301)))) }, other_args: vec![] };
                 matrix(rep, &mut u, &over, &stranger, "allowance-exceeded,recipient=spender");
                 // contract-as-caller
                 let cc = c.clone();
@@ -260,8 +283,8 @@ pub fn run(ctx: &Ctx, rep: &mut Report) {
                         })
                     };
                     let eps = vec![
-                        Ep { valid: true, name: "gas-service.pay_gas", named: spender.clone(), counterparty: Some(app.clone()), owner: Some(owner.clone()), call: mk(10, false), other_args: Some(mk(11, false)) },
-                        Ep { valid: true, name: "gas-service.add_gas", named: spender.clone(), counterparty: Some(collector.clone()), owner: Some(owner.clone()), call: mk(10, true), other_args: Some(mk(11, true)) },
+                        Ep { valid: true, name: "gas-service.pay_gas", named: spender.clone(), counterparty: Some(app.clone()), owner: Some(owner.clone()), call: mk(10, false), other_args: one(mk(11, false)) },
+                        Ep { valid: true, name: "gas-service.add_gas", named: spender.clone(), counterparty: Some(collector.clone()), owner: Some(owner.clone()), call: mk(10, true), other_args: one(mk(11, true)) },
                     ];
                     for ep in &eps {
                         matrix(rep, &mut u, ep, &stranger, if kind == TokKind::Sac { "asset-contract" } else { "interchain-token" });
@@ -299,10 +322,17 @@ pub fn run(ctx: &Ctx, rep: &mut Report) {
                 };
                 let mut m_other = m.clone();
                 m_other.payload_hash[0] ^= 1;
+                let mut m_other_src = m.clone();
+                m_other_src.source_address.push(b'2');
+                let mut m_other_id = m.clone();
+                m_other_id.message_id.push(b'2');
                 let eps = vec![
-                    Ep { valid: true, name: "gateway.call_contract", named: caller.clone(), counterparty: None, owner: Some(owner.clone()), call: mk_call(b"payload-1"), other_args: Some(mk_call(b"payload-2")) },
-                    Ep { valid: true, name: "gateway.validate_message", named: caller.clone(), counterparty: Some(operator.clone()), owner: Some(owner.clone()), call: mk_val(m.clone()), other_args: Some(mk_val(m_other)) },
+                    Ep { valid: true, name: "gateway.call_contract", named: caller.clone(), counterparty: None, owner: Some(owner.clone()), call: mk_call(b"payload-1"), other_args: one(mk_call(b"payload-2")) },
+                    Ep { valid: true, name: "gateway.validate_message", named: caller.clone(), counterparty: Some(operator.clone()), owner: Some(owner.clone()), call: mk_val(m.clone()), other_args: one(mk_val(m_other)) },
                 ];
+                let mut eps = eps;
+                eps[1].other_args.push(mk_val(m_other_src));
+                eps[1].other_args.push(mk_val(m_other_id));
                 for ep in &eps {
                     matrix(rep, &mut u, ep, &stranger, "approved");
                 }
@@ -393,14 +423,22 @@ pub fn run(ctx: &Ctx, rep: &mut Report) {
                         flat(interchain_token_service::InterchainTokenServiceClient::new(env, &i).try_interchain_transfer(&c, &BytesN::from_array(env, &id), &sstr(env, b"ethereum"), &sbytes(env, b"0xdest"), &amount, &None, &Token { address: g.clone(), amount: 2 }))
                     })
                 };
+                let mk_transfer_to = |dest_chain: &'static [u8], dest_addr: &'static [u8]| -> Call {
+                    let (i, c, g) = (its.clone(), caller.clone(), gas.clone());
+                    Rc::new(move |env: &Env| {
+                        flat(interchain_token_service::InterchainTokenServiceClient::new(env, &i).try_interchain_transfer(&c, &BytesN::from_array(env, &id), &sstr(env, dest_chain), &sbytes(env, dest_addr), &10, &None, &Token { address: g.clone(), amount: 2 }))
+                    })
+                };
                 let owner = w.owner.clone();
                 let eps = vec![
-                    Ep { valid: true, name: "its.deploy_interchain_token", named: caller.clone(), counterparty: Some(other_user.clone()), owner: Some(owner.clone()), call: mk_deploy(salt2), other_args: Some(mk_deploy(salt3)) },
-                    Ep { valid: true, name: "its.deploy_remote_interchain_token", named: caller.clone(), counterparty: Some(other_user.clone()), owner: Some(owner.clone()), call: mk_remote(3), other_args: Some(mk_remote(4)) },
-                    Ep { valid: true, name: "its.deploy_remote_canonical_token", named: payer.clone(), counterparty: Some(caller.clone()), owner: Some(owner.clone()), call: mk_canon(3), other_args: Some(mk_canon(4)) },
-                    Ep { valid: true, name: "its.interchain_transfer", named: caller.clone(), counterparty: Some(other_user.clone()), owner: Some(owner.clone()), call: mk_transfer(10), other_args: Some(mk_transfer(11)) },
+                    Ep { valid: true, name: "its.deploy_interchain_token", named: caller.clone(), counterparty: Some(other_user.clone()), owner: Some(owner.clone()), call: mk_deploy(salt2), other_args: one(mk_deploy(salt3)) },
+                    Ep { valid: true, name: "its.deploy_remote_interchain_token", named: caller.clone(), counterparty: Some(other_user.clone()), owner: Some(owner.clone()), call: mk_remote(3), other_args: one(mk_remote(4)) },
+                    Ep { valid: true, name: "its.deploy_remote_canonical_token", named: payer.clone(), counterparty: Some(caller.clone()), owner: Some(owner.clone()), call: mk_canon(3), other_args: one(mk_canon(4)) },
+                    Ep { valid: true, name: "its.interchain_transfer", named: caller.clone(), counterparty: Some(other_user.clone()), owner: Some(owner.clone()), call: mk_transfer(10), other_args: one(mk_transfer(11)) },
                 ];
                 let stranger = w.stranger.clone();
+                let mut eps = eps;
+                eps[3].other_args.push(mk_transfer_to(b"ethereum", b"0xattacker"));
                 for ep in &eps {
                     matrix(rep, &mut w.u, ep, &stranger, "registered");
                 }
@@ -429,7 +467,19 @@ pub fn run(ctx: &Ctx, rep: &mut Report) {
                         flat(AxelarOperatorsClient::new(env, &o2).try_execute(&p2, &t2, &Symbol::new(env, "f1"), &a)).map(|_| ())
                     })
                 };
-                let ep = Ep { valid: true, name: "operators.execute", named: op.clone(), counterparty: Some(target.clone()), owner: Some(owner.clone()), call: mk(1), other_args: Some(mk(2)) };
+                let other_target = u.env.register(ProbeTarget, ());
+                u.skip_events();
+                let mk_fn = |func: &'static str, tgt: Address| -> Call {
+                    let (o2, p2) = (oc.clone(), op.clone());
+                    Rc::new(move |env: &Env| {
+                        let mut a: SVec<Val> = SVec::new(env);
+                        a.push_back(1u32.into_val(env));
+                        flat(AxelarOperatorsClient::new(env, &o2).try_execute(&p2, &tgt, &Symbol::new(env, func), &a)).map(|_| ())
+                    })
+                };
+                let mut ep = Ep { valid: true, name: "operators.execute", named: op.clone(), counterparty: Some(target.clone()), owner: Some(owner.clone()), call: mk(1), other_args: one(mk(2)) };
+                ep.other_args.push(mk_fn("g1", target.clone()));
+                ep.other_args.push(mk_fn("f1", other_target.clone()));
                 matrix(rep, &mut u, &ep, &stranger, "member");
                 let t2 = target.clone();
                 proxy_variant(rep, &mut u, "operators.execute", &proxy, &oc, "execute", &|env, n| {
@@ -456,7 +506,13 @@ pub fn run(ctx: &Ctx, rep: &mut Report) {
                     let (e, c, t) = (ex.clone(), caller.clone(), tok.addr.clone());
                     Rc::new(move |env: &Env| flat(ExampleClient::new(env, &e).try_send(&c, &sstr(env, b"dest"), &sstr(env, b"0xd"), &sbytes(env, b"hello"), &Token { address: t.clone(), amount })))
                 };
-                let ep = Ep { valid: true, name: "example.send", named: caller.clone(), counterparty: Some(operator.clone()), owner: Some(owner.clone()), call: mk(5), other_args: Some(mk(6)) };
+                let mk_msg = |dest: &'static [u8], msg: &'static [u8]| -> Call {
+                    let (e, c, t) = (ex.clone(), caller.clone(), tok.addr.clone());
+                    Rc::new(move |env: &Env| flat(ExampleClient::new(env, &e).try_send(&c, &sstr(env, b"dest"), &sstr(env, dest), &sbytes(env, msg), &Token { address: t.clone(), amount: 5 })))
+                };
+                let mut ep = Ep { valid: true, name: "example.send", named: caller.clone(), counterparty: Some(operator.clone()), owner: Some(owner.clone()), call: mk(5), other_args: one(mk(6)) };
+                ep.other_args.push(mk_msg(b"0xd", b"other message"));
+                ep.other_args.push(mk_msg(b"0xattacker", b"hello"));
                 matrix(rep, &mut u, &ep, &stranger, "funded");
             }
         }
@@ -474,5 +530,5 @@ pub fn run(ctx: &Ctx, rep: &mut Report) {
         req.push(format!("ep:{}", e));
     }
     rep.notes.insert("required".into(), json!(req));
-    rep.notes.insert("rule".into(), json!("finite matrix enumerated completely: 16 entry points that debit, burn, pay gas from, send as, consume for, deploy under the name of or execute as an address named in the arguments x authorisers {the named address, the counterparty (recipient / owner of the funds in a delegated call / application), the contract owner, a stranger, nobody, everyone the code asked except the named address, the named address for other arguments}, in states where the call is otherwise valid (allowances granted, balances funded, messages approved, tokens registered), and for delegated transfers/burns also in states without (or beyond) an allowance with the spender, the owner of the funds or a third party as recipient, where nobody's authorisation may succeed; plus the contract-as-caller variant through a forwarding proxy (the named address is the calling contract => accepted without entries; another address => refused). Only the named address's exact authorisation may succeed; refused calls are diffed against the pre-state. distinct = (entry point, state, authoriser, outcome)"));
+    rep.notes.insert("rule".into(), json!("finite matrix enumerated completely: 16 entry points that debit, burn, pay gas from, send as, consume for, deploy under the name of or execute as an address named in the arguments x authorisers {the named address, the counterparty (recipient / owner of the funds in a delegated call / application), the contract owner, a stranger, nobody, everyone the code asked except the named address, the named address for other arguments (one argument changed at a time: amount, recipient, spender, expiry, source address, message id, destination, function, target)}, in states where the call is otherwise valid (allowances granted, balances funded, messages approved, tokens registered), and for delegated transfers/burns also in states without (or beyond) an allowance with the spender, the owner of the funds or a third party as recipient, where nobody's authorisation may succeed; plus the contract-as-caller variant through a forwarding proxy (the named address is the calling contract => accepted without entries; another address => refused). Only the named address's exact authorisation may succeed; refused calls are diffed against the pre-state. distinct = (entry point, state, authoriser, outcome)"));
 }
